@@ -105,6 +105,7 @@ let judge c obs =
         if first <> None then Some ("failed-although-master-present", "reported failure although a node reported master within the retry budget")
         else if int_of_string calls <> (c.maxr + 1) * n then Some ("retry-budget", "number of probes differs from (maxRetries+1) rounds: " ^ calls)
         else None
+    | "nilres" :: _ -> Some ("no-node-and-no-error", "discovery returned neither a node nor an error (the caller would go on with a nil topology)")
     | _ -> Some ("malformed-observation", impl) in
   match verdict with
   | Some (sg, msg) -> fail "oracle" sg model impl msg
